@@ -90,6 +90,12 @@ pub fn verify_identity(e: &Env, account: &Address) {
     let topics_and_issuers = cti_client.get_claim_topics_and_issuers();
 
     for (claim_topic, issuers) in topics_and_issuers.iter() {
+        // A required topic without any trusted issuer cannot be satisfied: the
+        // loop below would not run at all and the topic would be skipped.
+        if issuers.is_empty() {
+            panic_with_error!(e, RWAError::IdentityVerificationFailed)
+        }
+
         let issuers_with_claim_ids = issuers.iter().enumerate().map(|(i, issuer)| {
             (
                 issuer.clone(),
